@@ -16,6 +16,7 @@ Import ListNotations.
 From Onet Require Import Tree.TreeMarshal Tree.TreeMarshalProofs Overlay.TreeCtl Overlay.TreeCtlProofs
      Corr.C06 Tree.C06CheckProofs.
 From Onet Require Import Overlay.C06HistCheckProofs Overlay.TreeCtlRace Overlay.TreeCtlRaceProofs.
+From Onet Require Import Tree.TreeGenNary Tree.TreeGenNaryProofs.
 From Onet Require Overlay.Done Overlay.C06DoneProofs.
 
 (* ---- Part A: flatten to ids, rebuild against the roster ------------------------------------- *)
@@ -469,3 +470,45 @@ Theorem c06_two_sections_repaired :
   (exists r, rrun Nat.add repaired true rinit race_local_ops = (r, Fine) /\ get_tree (r_base r) 9 = Some w_t).
 Proof. exact race_repaired. Qed.
 Print Assumptions c06_two_sections_repaired.
+
+(* ---- Part D: what the roster's n-ary generator hands to the sender --------------------------------
+
+   Tree/TreeGenNary.v gives the tree of GenerateNaryTreeWithRoot(N, member root) -- hence of
+   GenerateNaryTree / Binary / Star (root 0) -- as a value of the tree type: node k on member
+   (k + root) mod n WITH THAT POSITION RECORDED, children N*k+1 .. N*k+N. The correspondence
+   compares it (up to the hashed ids) with the tree the Go generator returns, for every root. *)
+
+(* every node of a generated tree records the roster position of its own server ... *)
+Theorem c06_generated_positions : forall G (idf : server G -> nat) f l N root k t,
+  nary_node idf f l N root k = Some t ->
+  forall x, In x (flat t) -> nth_error l (n_ridx x) = Some (n_srv x).
+Proof. exact nary_node_positions. Qed.
+Print Assumptions c06_generated_positions.
+
+(* ... hence for any branching factor and ANY root position a generated tree over pairwise
+   distinct servers with keys comes back from flatten-and-rebuild exactly as it was sent *)
+Theorem c06_generated_tree_roundtrips : forall G gadd (idf : server G -> nat) f06 n2 tid (ro : roster G) N root t,
+  NoDup (map s_id (r_list ro)) ->
+  (forall e, In e (r_list ro) -> s_nokey e = false) ->
+  nary_tree gadd idf tid ro N root = Some t ->
+  make_tree gadd f06 n2 (to_marshal t) (Some ro) = Ok t /\
+  (forall x, In x (flat (t_root t)) -> nth_error (r_list ro) (n_ridx x) = Some (n_srv x)).
+Proof. exact generated_tree_roundtrips. Qed.
+Print Assumptions c06_generated_tree_roundtrips.
+
+Example c06_generated_example :
+  exists t, nary_tree Nat.add (fun s => 100 + s_id s) 9 g_ro 2 3 = Some t /\
+            map (fun x => n_ridx x) (flat (t_root t)) = [3; 4; 1; 2; 0] /\
+            make_tree Nat.add false false (to_marshal t) (Some g_ro) = Ok t.
+Proof. exact generated_example. Qed.
+Print Assumptions c06_generated_example.
+
+(* a tree that records the loop counter instead of the position does not come back equal *)
+Example c06_wrong_positions_do_not_roundtrip :
+  let s := fun i k => mkSrv i k [] false in
+  let t := mkTree 9 (Some g_ro)
+             (with_aggs Nat.add (Node 104 (s 4 40) 3 None [Node 105 (s 5 50) 1 None []; Node 101 (s 1 10) 2 None []])) in
+  exists t', make_tree Nat.add false false (to_marshal t) (Some g_ro) = Ok t' /\ t' <> t /\
+             map (fun x => n_ridx x) (flat (t_root t')) = [3; 4; 0].
+Proof. exact wrong_positions_do_not_roundtrip. Qed.
+Print Assumptions c06_wrong_positions_do_not_roundtrip.
